@@ -214,9 +214,9 @@ def check_obligations(pid, thorough=False):
         return res
     # parse: "'name' depends on axioms: [a, b]" or "'name' does not depend on any axioms"
     found = {}
-    for m in re.finditer(r"'([^']+)' depends on axioms: \[([^\]]*)\]", txt.replace("\n", " ")):
+    for m in re.finditer(r"'(\S+)' depends on axioms: \[([^\]]*)\]", txt.replace("\n", " ")):
         found[m.group(1)] = {a.strip() for a in m.group(2).split(",") if a.strip()}
-    for m in re.finditer(r"'([^']+)' does not depend on any axioms", txt):
+    for m in re.finditer(r"'(\S+)' does not depend on any axioms", txt):
         found[m.group(1)] = set()
     for t in thms:
         ax = found.get(t)
